@@ -167,6 +167,8 @@ def bounds(tier):
     common = {
         "algorithms": L.ALGOS, "models": {k: f"{v['kind']} dim {v['dim']} sources {v['ns']}" for k, v in L.MODELS.items()},
         "seeds": "{0, 1, VERIF_SEED}", "n_iter": L.N_ITER, "prior activities": list(L.PRIORS),
+        "plot_dims": f"fit(Gibbs) with save + convergence plots (+ patient plots), sourcewise or not, on logistic models of every (dimension 1..4, sources 0..dimension-1): "
+                     "same bytes as the same fit without logging",
         "same_object": "a model object fitted in the process (Gibbs, with and without annealing), then the seeded personalize (3 algorithms) / "
                        "simulate call made twice on it: identical bytes",
         "n_jobs": f"personalize(scipy_minimize, seed=0, n_jobs in {[1, 2] if tier == 'quick' else [1, 2, 3]}) on {NJOBS_MODELS[tier]} in a new non-daemonic "
@@ -234,6 +236,9 @@ def shards(tier, seed):
 
     for m in NJOBS_MODELS[tier]:
         out.append({"kind": "njobs", "model": m, "n_jobs": [1, 2] if quick else [1, 2, 3]})
+    names = list(L.EXTRA_MODELS)
+    for lo in range(0, len(names), 3):
+        out.append({"kind": "plot_dims", "models": names[lo:lo + 3]})
     for algo in list(L.PERSONALIZE) + ["simulate"]:
         for m in L.MODELS:
             if algo == "simulate" and m != "logistic":
@@ -548,6 +553,28 @@ def run_njobs(acc, shard):
                           f"cohort {NJOBS_COHORTS[0]}, n_jobs={nj}: {first['params']} at first, {last['params']} after two other cohorts", case)
 
 
+def run_plot_dims(acc, shard):
+    """Convergence / patient plots for every (dimension, number of sources) of the catalogue, sourcewise or not: the page
+    layout of the plot files depends on the number of curves; the logged fit must run to the end and give the bytes of the
+    same fit without logging (both in this interpreter)."""
+    for name in shard["models"]:
+        plain = L.execute("fit_gibbs", name, 0, None)
+        acc.evaluation()
+        for sw in (False, True):
+            for nb in (None, 2):
+                log = _log(None, 2, 2, 2 if nb else None, sw, "fresh", nb)
+                case = {"check": "plot_dims", "algo": "fit_gibbs", "model": name, "seed": 0, "log": log}
+                obs = L.execute("fit_gibbs", name, 0, log)
+                acc.evaluation()
+                acc.nontriv(json.dumps(case, sort_keys=True))
+                label, viols = judge(dict(case, route="settings", prior="nothing"), obs, plain, False)
+                acc.outcome("plot_dims:" + label.split(":")[0])
+                if obs["kind"] == "ok" and any(f.endswith(".pdf") for f in obs.get("files", [])):
+                    acc.count("runs that wrote plots")
+                for sig, msg, exp, got in viols:
+                    acc.violation(sig, f"[{name}] {msg}", case, expected=exp, observed=got)
+
+
 def run_same_object(acc, shard):
     """The history 'fitted earlier in the process' on the SAME model object: the object is fitted (seeded), then the seeded
     personalize / simulate call is made twice in a row on it; the two answers must be the same bytes (a repeated seeded call)."""
@@ -571,8 +598,18 @@ def run_same_object(acc, shard):
                 continue
             digests, values = [], []
             failed = None
+            shared_table = None
+            if algo == "simulate" and fit_algo == "fit_annealing":
+                # second simulate variant: a visit table (identifiers not in sorted order) - the SAME DataFrame object is
+                # given to both calls, as a user looping over seeds or models does
+                import pandas as pd
+
+                shared_table = pd.DataFrame({"ID": ["P3", "P3", "P1", "P2", "P2", "P1"], "TIME": [71.0, 73.5, 64.0, 80.25, 78.0, 66.5]})
+                case = dict(case, design="visit table object shared by the two calls")
             for rep in range(2):
                 name, kw = L.algo_kwargs(algo, seed)
+                if shared_table is not None:
+                    kw["visit_parameters"] = {"visit_type": "dataframe", "df_visits": shared_table}
                 try:
                     with redirect_stdout(io.StringIO()):
                         res = model.personalize(ds, name, **kw) if algo in L.PERSONALIZE else model.simulate(algorithm=name, **kw)
@@ -602,7 +639,9 @@ def run_shard(shard):
     acc = Acc()
     L.ensure_env()
     try:
-        if shard["kind"] == "same_object":
+        if shard["kind"] == "plot_dims":
+            run_plot_dims(acc, shard)
+        elif shard["kind"] == "same_object":
             run_same_object(acc, shard)
         elif shard["kind"] == "njobs":
             run_njobs(acc, shard)
@@ -638,6 +677,11 @@ def cleanup():
 def replay(case):
     L.ensure_env()
     out = []
+    if case.get("check") == "plot_dims":
+        acc = Acc()
+        run_plot_dims(acc, {"models": [case["model"]]})
+        cleanup()
+        return [{"signature": v["signature"], "message": v["message"]} for v in acc.violations.values()]
     if case.get("check") == "same_object":
         acc = Acc()
         run_same_object(acc, {"algo": case["algo"], "model": case["model"], "seeds": [case["seed"]]})
